@@ -629,17 +629,17 @@ Qed.
 
 (* with DocCommentProofs: what the document shows of the comment *)
 Theorem documented_text_lossless st a e :
-  expand st a = Ok e -> k19_class (a_docs a) = false ->
+  expand st a = Ok e ->
   nonblank (opt_str (e_summary e)) ++ nonblank (opt_str (e_description e)) = declared_text (a_docs a).
 Proof.
-  intros H K. destruct (fields_as_declared _ _ _ H) as (r & c & _ & _ & ->).
-  exact (DocCommentProofs.doc_lossless_declared _ K).
+  intros H. destruct (fields_as_declared _ _ _ H) as (r & c & _ & _ & ->).
+  exact (DocCommentProofs.doc_lossless_declared _).
 Qed.
 
 (* ====================================================================== *)
 (* The model meets the executable specification used to judge
-   implementation runs ([spec_decl], Macro.v): for every accepted declaration
-   outside K19, what the model registers, routes and documents in the three
+   implementation runs ([spec_decl], Macro.v): for every accepted declaration,
+   what the model registers, routes and documents in the three
    forms satisfies every clause of the property. *)
 
 Definition model_ep (a : attr) (st : style) : res N oep :=
@@ -740,12 +740,12 @@ Lemma extracted_eta e : mkExtracted (summary e) (description e) = e.
 Proof. destruct e; reflexivity. Qed.
 
 Theorem model_meets_spec a vs :
-  accepted a = true -> k19_class (a_docs a) = false -> versions_wf (a_versions a) = true ->
+  accepted a = true -> versions_wf (a_versions a) = true ->
   forallb (fun s => is_some (Semver.parse s)) vs = true ->
   spec_decl a (map (model_ep a) styles) (map (model_route a None) styles)
     (map (model_probe a) vs) = (true, true).
 Proof.
-  intros HA HK HW HV.
+  intros HA HW HV.
   pose proof (accepted_compiles _ HA) as HC.
   unfold accepted in HA. apply andb_true_iff in HA. destruct HA as [HA HP].
   apply andb_true_iff in HA. destruct HA as [HR HT].
@@ -755,7 +755,7 @@ Proof.
   { intros st. rewrite (expand_compiles _ _ HC), ER, EC. reflexivity. }
   pose proof (declared_range_wf _ _ ER) as WF.
   pose proof (orange_roundtrip _ _ HW ER) as HO.
-  pose proof (doc_lossless_b_ok _ HK) as HD.
+  pose proof (doc_lossless_b_ok (a_docs a)) as HD.
   unfold spec_decl. rewrite ER, EC.
   (* the registered endpoint of each form *)
   set (O := mkOep (declared_opid a) (method_str (declared_method a)) (a_path a)
